@@ -325,4 +325,40 @@ where
     Ok(buffer)
 }
 //@end
+
+// ---- the adapter from std::io::Write to std::fmt::Write behind to_utf8_io_writer / Writer::write_serializable ----
+// C13/C19: the serializer's contracts speak about what the fmt sink has received; for a byte sink that is only true if a
+// successful `write_str` has delivered ALL the bytes (A-sink: write_all does, one `write` need not)
+//@extract writer::ToFmtWrite | src/writer.rs :: struct ToFmtWrite | serves=C13,C19 features=serialize
+ struct ToFmtWrite<T>(pub T);
+//@end
+/// std: the unit struct `std::fmt::Error` (vstd declares the type without its constructor)
+#[verifier::external_body]
+pub fn fmt_error_() -> core::fmt::Error { core::fmt::Error }
+impl<T> Write for ToFmtWrite<T>
+where
+    T: crate::Write,
+{
+    closed spec fn out(&self) -> BSeq { self.0.out() }
+//@extract writer::ToFmtWrite::write_str | src/writer.rs :: impl<T> std::fmt::Write for ToFmtWrite<T> where T: std::io::Write, :: fn write_str | serves=C13,C19 features=serialize
+//@rewrite std::fmt::Result ==> Result<(), core::fmt::Error>
+//@rewrite |_c| std::fmt::Error ==> |_c| fmt_error_()
+    fn write_str(&mut self, s: &str) -> Result<(), core::fmt::Error> {
+        self.0.write_all(s.as_bytes()).map_err(|_c| fmt_error_())
+    }
+//@end
+    /// std: the provided method `fmt::Write::write_char` is `self.write_str(c.encode_utf8(&mut [0; 4]))`
+    #[verifier::external_body]
+    fn write_char(&mut self, c: char) -> (r: Result<(), core::fmt::Error>) { unimplemented!() }
+}
+//@extract se::to_utf8_io_writer | src/se/mod.rs :: fn to_utf8_io_writer | serves=C13 features=serialize
+//@rewrite W: std::io::Write ==> W: crate::Write
+ fn to_utf8_io_writer<W, T>(writer: W, value: &T) -> Result<WriteResult, SeError>
+where
+    W: crate::Write,
+    T: ?Sized + Serialize,
+{
+    value.serialize(Serializer::new(&mut ToFmtWrite(writer)))
+}
+//@end
 }
